@@ -45,6 +45,7 @@ Definition env_read (max : N) (s : S) : (N * bytes + rerr) * S :=
         let '(_, s2, ok2) := pullS size s1 in
         if ok2 then (inr (RErr code_invalid_argument), s2)
         else match endS s1 with
+             | Fail (ECoded c) => (inr (RErr c), s2)              (* an already-coded error passes through *)
              | Fail _ => (inr (RErr code_unknown), s2)
              | _ => (inr (RErr code_invalid_argument), s2)
              end
@@ -53,6 +54,7 @@ Definition env_read (max : N) (s : S) : (N * bytes + rerr) * S :=
         let '(payload, s2, ok2) := pullS size s1 in
         if ok2 then (inl (bN fl, payload), s2)
         else match endS s1 with
+             | Fail (ECoded c) => (inr (RErr c), s2)              (* an already-coded error passes through *)
              | Fail _ => (inr (RErr code_unknown), s2)            (* read enveloped message: %w *)
              | _ => (inr (RErr code_invalid_argument), s2)        (* promised N bytes, got fewer *)
              end
@@ -169,12 +171,12 @@ Proof.
     + destruct (pull (be32_dec a b c d) t1) as [[g t2] ok2] eqn:E2.
       rewrite (pull_flatten _ _ _ _ _ E2). rewrite <- t_end_flatten.
       destruct ok2; [inversion H; subst; reflexivity|].
-      destruct (t_end t1); inversion H; subst; reflexivity.
+      destruct (t_end t1) as [| |[| |cc]]; inversion H; subst; reflexivity.
     + destruct (be32_dec a b c d =? 0); [inversion H; subst; reflexivity|].
       destruct (pull (be32_dec a b c d) t1) as [[g t2] ok2] eqn:E2.
       rewrite (pull_flatten _ _ _ _ _ E2). rewrite <- t_end_flatten.
       destruct ok2; [inversion H; subst; reflexivity|].
-      destruct (t_end t1); inversion H; subst; reflexivity.
+      destruct (t_end t1) as [| |[| |cc]]; inversion H; subst; reflexivity.
   - rewrite <- t_end_flatten.
     destruct pfx; destruct (t_end t) as [| |[| |c]]; inversion H; subst; reflexivity.
 Qed.
@@ -294,7 +296,7 @@ Qed.
 Lemma env_read_declared_oversize : forall max fl a b c d body f,
   0 < max -> max < be32_dec a b c d ->
   exists code, fst (env_read_f max (fl :: a :: b :: c :: d :: body, f)) = inr (RErr code)
-               /\ (code = code_invalid_argument \/ code = code_unknown).
+               /\ (code = code_invalid_argument \/ code = code_unknown \/ f = Fail (ECoded code)).
 Proof.
   intros max fl a b c d body f Hpos Hbig. unfold env_read_f, env_read.
   change (fl :: a :: b :: c :: d :: body) with ([fl; a; b; c; d] ++ body).
@@ -305,7 +307,7 @@ Proof.
   destruct (fpull (be32_dec a b c d) (body, f)) as [[g s2] ok2].
   destruct ok2; [eexists; split; [reflexivity | left; reflexivity]|].
   unfold f_end. cbn [snd].
-  destruct f; eexists; (split; [reflexivity|]); auto.
+  destruct f as [| |[| |cc]]; eexists; (split; [reflexivity|]); auto.
 Qed.
 
 (* ================================================================== *)
